@@ -346,16 +346,25 @@ pub(crate) fn panicking_without_execution() -> bool {
 
 /// Runs the destructors of the active thread's thread-locals.
 pub(crate) fn drop_thread_locals() {
-    let locals = execution(|execution| {
-        let thread = execution.threads.active_id();
+    // A destructor may be the first user of another thread-local, which has
+    // to be destroyed as well: repeat until nothing is left (a few times at
+    // most, like the platform implementations do).
+    for _ in 0..8 {
+        let locals = execution(|execution| {
+            let thread = execution.threads.active_id();
 
-        trace!(?thread, "drop locals");
+            trace!(?thread, "drop locals");
 
-        execution.threads.active_mut().drop_locals()
-    });
+            execution.threads.active_mut().drop_locals()
+        });
 
-    // Drop outside of the execution context
-    drop(locals);
+        if locals.is_empty() {
+            break;
+        }
+
+        // Drop outside of the execution context
+        drop(locals);
+    }
 }
 
 pub fn thread_done() {
